@@ -76,13 +76,15 @@ def l1(rep, tier):
 def scenarios(rep, tier):
     out = []
     quick = tier == "quick"
-    runs = [dict(hasprec="FALSE", mode="best", n=2), dict(hasprec="TRUE", mode="best", n=2, maxextra=2),
-            dict(hasprec="TRUE", mode="soft", n=2, maxextra=2, prec="Quarter" if not quick else "Half"),
-            dict(hasprec="FALSE", mode="soft", n=3 if not quick else 1)]
+    big = dict(refs="QuickRefs" if quick else "MoreRefs", pool="QuickPool" if quick else "MorePool")
+    mid = dict(refs="QuickRefs" if quick else "MoreRefs", pool="QuickPool" if quick else "MidPool")
+    runs = [dict(big, hasprec="FALSE", mode="best", n=2), dict(big, hasprec="TRUE", mode="best", n=2, maxextra=2),
+            dict(big, hasprec="TRUE", mode="soft", n=2, maxextra=2, prec="Quarter" if not quick else "Half"),
+            dict(mid, hasprec="FALSE", mode="soft", n=3 if not quick else 1)]
     if not quick:
-        runs += [dict(hasprec="TRUE", mode="best", n=3, maxextra=2, prec="Quarter"), dict(hasprec="TRUE", mode="best", n=3, maxextra=3)]
+        runs += [dict(mid, hasprec="TRUE", mode="best", n=3, maxextra=2, prec="Quarter"), dict(mid, hasprec="TRUE", mode="best", n=3, maxextra=3)]
     for u in runs:
-        u = dict(u, refs="QuickRefs" if quick else "MoreRefs", pool="QuickPool" if quick else "MorePool", workers="{1}", emit="TRUE", live="")
+        u = dict(u, workers="{1}", emit="TRUE", live="")
         res = tlc.run("MC_PyGamma", cfg(**u), label=f"PyGamma scenarios {u['mode']} n={u['n']} prec={u['hasprec']}", workers=16, timeout=3000,
                       heap="8g")
         if res.violated or res.errors:
@@ -227,7 +229,7 @@ def near(x, want, tol=2e-5):
 
 def l2(rep, pa, tier, rng):
     scen = scenarios(rep, tier)
-    cap = 500 if tier == "quick" else 40000
+    cap = 500 if tier == "quick" else 20000
     if len(scen) > cap:
         # keep every scenario with a second batch, thin the others
         second = [s for s in scen if s["scenario"]["extra"] > 0]
